@@ -156,6 +156,37 @@ def main():
                 except Exception as e:  # noqa
                     direct.append({"law": "a dataset opened with a constraint in its URL can be read through its session",
                                    "url_constraint": ce, "session": mk.__name__, "error": repr(e)[:300]})
+        # (2e) a server that answers with redirections: every hop is made by the dataset's session
+        class Redirecting:
+            def __init__(self, inner):
+                self.inner = inner
+
+            def __call__(self, environ, start_response):
+                path = environ.get("PATH_INFO", "")
+                if path.startswith("/old/"):
+                    q = environ.get("QUERY_STRING", "")
+                    loc = TR.BASE + "/new/" + path[len("/old/"):] + ("?" + q if q else "")
+                    start_response("302 Found", [("Location", loc), ("Content-Length", "0")])
+                    return [b""]
+                return self.inner(environ, start_response)
+        for mk in (TR.plain_session, TR.cached_session):
+            sess6, ad6 = mk(Redirecting(app))
+            created.clear()
+            try:
+                ds6 = open_url(TR.BASE + "/old/d", session=sess6, protocol="dap2")
+                np.asarray(ds6["x"].data[0:2, 1:3])
+                list(ds6["q"].iterdata())
+                r.count(("redirect", mk.__name__))
+                extra = [x for x in created if x is not sess6]
+                followed = [u for m_, u in ad6.seen if "/new/" in u]
+                if ad6.anonymous or extra or not followed:
+                    direct.append({"law": "a redirection is followed by the dataset's own session (every hop reaches the session's adapter "
+                                          "with the session's headers)", "session": mk.__name__,
+                                   "redirected_requests_seen_by_the_session": len(followed),
+                                   "requests_without_the_session_header": ad6.anonymous[:3], "other_sessions_created": len(extra)})
+            except Exception as e:  # noqa
+                direct.append({"law": "a redirection is followed by the dataset's own session", "session": mk.__name__,
+                               "error": repr(e)[:300]})
         root = D.Node("d4")
         arr = np.arange(6, dtype="i4").reshape(2, 3)
         root.members.append(D.Var("x", "Int32", [("anon", 2), ("anon", 3)], arr))
